@@ -210,7 +210,12 @@ def run(c: sym.Ctx, n_workers: int, depth: int, max_fails: Any, slow_exit: bool 
     pm.os = FakeOS()
     pm.signal = FakeSignal()
     pm.current_process = lambda: types.SimpleNamespace(name="MainProcess")
-    args = types.SimpleNamespace(workers=n_workers, max_fails=max_fails, reload=False, no_gitignore=False, shutdown_timeout=5)
+    # the real argument dataclass (its own validation / normalisation hooks run on the symbolic budget, too)
+    from taskiq.cli.worker.args import WorkerArgs
+
+    args = WorkerArgs(broker="b:broker", modules=[], workers=n_workers, max_fails=max_fails, reload=False, no_gitignore=False, shutdown_timeout=5)
+    c.check(args.workers == n_workers, "worker_count_taken_as_configured", got=args.workers)
+    c.check(args.max_fails == max_fails, "failure_budget_taken_as_configured", got=args.max_fails)
     mgr = pm.ProcessManager(args=args, worker_function=lambda args: None, observer=None)
     manager["pm"] = mgr
     tr.manager = mgr  # type: ignore[attr-defined]
